@@ -22,6 +22,7 @@ def _rng_state():
 
 
 class PurityHooks(Hooks):
+    prefix = 'C10'
     def __init__(self, frozen_ids=()):
         self.snap = {}
         self.rng0 = None
